@@ -296,6 +296,12 @@ class CFG(object):
             self._connect(stubs, node)
             self._jump([(node, 'seq')], 'inline_exit', frames)
             return []
+        if isinstance(stmt, ast.If) and \
+                getattr(stmt, '_inline', None) == 'loop body':
+            # the consumer's loop body placed at a yield of an unrolled
+            # generator: its break / continue are those of the generator's
+            # loop around it
+            return self._block(stmt.body, stubs, frames)
         if isinstance(stmt, ast.If) and getattr(stmt, '_inline', None):
             frame = _Inline()
             out = self._block(stmt.body, stubs, frames + [frame])
